@@ -24,11 +24,12 @@ def pair(case):
   import jax
   import jax.numpy as jnp
   kind, lr, hp = case['pair'], case['lr'], BATCHING[case['batching']]
+  co = case.get('copt', 'sgd')  # client optimizer: a stateful one separates optimizer states that SGD cannot
   plain = lambda alg: (lambda st, cohort: alg.apply(st, cohort)[0])
   P = lambda st: st.params
   if kind == 'fedprox0':
-    a, ia = systems.build('fed_prox', mu=0.0, copt='sgd', sopt='mom', lr_c=lr, lr_s=0.5, loss='rng', hp=hp)
-    b, ib = systems.build('fed_avg', copt='sgd', sopt='mom', lr_c=lr, lr_s=0.5, loss='rng', hp=hp)
+    a, ia = systems.build('fed_prox', mu=0.0, copt=co, sopt='mom', lr_c=lr, lr_s=0.5, loss='rng', hp=hp)
+    b, ib = systems.build('fed_avg', copt=co, sopt='mom', lr_c=lr, lr_s=0.5, loss='rng', hp=hp)
     return plain(a), ia, plain(b), ib, P, P
   if kind.startswith('fedprox_mu'):
     mu = float(kind.split('mu')[1])
@@ -50,16 +51,16 @@ def pair(case):
     ib = fed_avg.ServerState(algos.jparams(), s_opt.init(algos.jparams()))
     return plain(a), ia, step_b, ib, P, P
   if kind == 'hyp1':
-    a, ia = systems.build('hyp_cluster', clusters=1, copt='sgd', sopt='mom', lr_c=lr, lr_s=0.5, loss='plain', hp=hp)
-    b, ib = systems.build('fed_avg', copt='sgd', sopt='mom', lr_c=lr, lr_s=0.5, loss='plain', hp=hp)
+    a, ia = systems.build('hyp_cluster', clusters=1, copt=co, sopt='mom', lr_c=lr, lr_s=0.5, loss='plain', hp=hp)
+    b, ib = systems.build('fed_avg', copt=co, sopt='mom', lr_c=lr, lr_s=0.5, loss='plain', hp=hp)
     return plain(a), ia, plain(b), ib, (lambda st: st.cluster_params[0]), P
   if kind == 'mimelite_sgd':
     a, ia = systems.build('mime_lite', base='sgd', lr=lr, server_lr=1.0, loss='rng', hp=hp)
     b, ib = systems.build('fed_avg', copt='sgd', sopt='sgd', lr_c=lr, lr_s=1.0, loss='rng', hp=hp)
     return plain(a), ia, plain(b), ib, P, P
   if kind == 'apfl_global':
-    a, ia = systems.build('apfl', coef=0.5, copt='sgd', sopt='mom', lr_c=lr, lr_s=0.5, loss='plain', hp=hp)
-    b, ib = systems.build('fed_avg', copt='sgd', sopt='mom', lr_c=lr, lr_s=0.5, loss='plain', hp=hp)
+    a, ia = systems.build('apfl', coef=0.5, copt=co, sopt='mom', lr_c=lr, lr_s=0.5, loss='plain', hp=hp)
+    b, ib = systems.build('fed_avg', copt=co, sopt='mom', lr_c=lr, lr_s=0.5, loss='plain', hp=hp)
     return plain(a), ia, plain(b), ib, P, P
   if kind == 'mime_one_step':
     gamma = 0.5
@@ -120,7 +121,7 @@ def lockstep(case):
   rec([], ia, ib)
   return {'evals': stats['transitions'], 'states': stats['states'], 'transitions': stats['transitions'],
           'traces': stats['transitions'], 'outcomes': sorted(outs), 'nontrivial': True, 'violations': viols,
-          'keys': [[case['pair'], case['lr'], case['batching'], i] for i in range(stats['transitions'])],
+          'keys': [[case['pair'], case.get('copt', 'sgd'), case['lr'], case['batching'], i] for i in range(stats['transitions'])],
           'sample': {'pair': case['pair'], 'lr': case['lr'], 'batching': case['batching'],
                      'transitions': stats['transitions'], 'distinct_parameter_vectors': len(outs)}}
 
@@ -146,6 +147,10 @@ def plan(ctx):
         if not th and (lr, b) not in ((0.125, 'b2e1'), (0.5, 'b3e2'), (0.125, 'b1s1')):
           continue
         cs.append({'pair': p, 'lr': lr, 'batching': b, 'depth': depth, 'seed': ctx.seed})
+  for p in ('fedprox0', 'hyp1', 'apfl_global'):
+    for co in ('mom', 'adam') if th else ('mom',):
+      for lr, b in ((0.125, 'b3e2'), (0.5, 'b2e1')) if th else ((0.125, 'b3e2'),):
+        cs.append({'pair': p, 'lr': lr, 'batching': b, 'depth': depth, 'seed': ctx.seed, 'copt': co})
   for mu in ('0.5', '2'):
     for lr, b in ((0.125, 'b2e1'), (0.5, 'b3e2')) if th else ((0.125, 'b2e1'),):
       cs.append({'pair': 'fedprox_mu' + mu, 'lr': lr, 'batching': b, 'depth': 2, 'mu_depth': 2 if th else 1,
